@@ -9,6 +9,7 @@ import (
 	"github.com/jsightapi/jsight-schema-core/notations/jschema"
 	"github.com/jsightapi/jsight-schema-core/notations/regex"
 
+	"github.com/jsightapi/jsight-api-core/catalog"
 	"github.com/jsightapi/jsight-api-core/directive"
 	"github.com/jsightapi/jsight-api-core/jerr"
 	"github.com/jsightapi/jsight-api-core/notation"
@@ -77,7 +78,16 @@ func (core *JApiCore) buildUserTypes() *jerr.JApiError {
 			if !d.BodyCoords.IsSet() {
 				return d.KeywordError(jerr.BodyIsEmpty)
 			}
-			core.userTypes.Set(k, regex.New(k, d.BodyCoords.Read()))
+			rs := regex.New(k, d.BodyCoords.Read())
+			// The example of the type is generated when the type is added to the
+			// schemas which use it, the regular expression on which the generator
+			// panics has to be found here.
+			if pattern, err := rs.Pattern(); err == nil {
+				if err := catalog.RegexExampleError(pattern); err != nil {
+					return d.KeywordError(err.Error())
+				}
+			}
+			core.userTypes.Set(k, rs)
 		default:
 			// nothing
 		}
